@@ -74,7 +74,7 @@ PROPS = {
             "translator tools/extract_tables.py: symbol, look-ahead, keyword and both line-break tables are regenerated from tokenizer.rs/token.rs on every run (fail-closed regular expressions)",
             "modelled, not verified: the control skeleton of tokenize() is mirrored by hand in coq/Model/Tokenizer.v; Unicode classes of non-ASCII code points and grapheme boundaries are taken from Rust per input (std / unicode-segmentation are trusted); BigInt parsing is the decimal fold",
         ],
-        "assumptions": ["the partition statement is evaluated per input on the implementation (oracle), not yet proved for the model for all inputs"],
+        "assumptions": ["the partition theorem is about the tokenizer MODEL (all texts); that the model is the implementation is the correspondence stream; the theorem's hypothesis (positive widths, ASCII classes) is what the glue constructs and Rust's char API guarantees"],
     },
     "C10": {
         "level": "proof",
@@ -348,15 +348,16 @@ MANIFEST_TEXT = {
         "technique": "translation validation: implementation run + proved stuck-term classifier (Coq), type-directed program generation",
     },
     "C09": {
-        "text": "Kernel-checked on every run: the symbol, look-ahead and keyword tables regenerated from tokenizer.rs produce each fixed token "
-                "from exactly its own text, and the tokenizer model can never reach the second pass's panic. The partition property itself "
+        "text": "Proved for every text: tokens returned by the tokenizer model partition the source (C09_tokenize_partition, axiom-free, over the "
+                "tables regenerated from tokenizer.rs on every run), the tables produce each fixed token from exactly its own text, and the "
+                "model can never reach the second pass's panic. The partition property "
                 "(disjoint, in order, on character boundaries, exact lexemes, only whitespace/comments between, maximal munch, keywords as whole "
                 "words, exact literal values) is the Coq function partition_ok, run on the implementation's tokens for all short strings over a "
-                "class-covering alphabet and random Unicode text, together with full model/implementation token comparison. Partial proof: the "
-                "universal partition theorem for the model is stated (C09_partition_statement) but not yet proved.",
+                "class-covering alphabet and random Unicode text, together with full model/implementation token comparison. The "
+                "universal partition theorem for the model is PROVED (C09_tokenize_partition: any text, any grapheme oracle).",
         "design_ref": "DESIGN.md section 4, C09",
         "note": "Trusted: Coq kernel, translator for the tables, extraction, OCaml driver (UTF-8 decoding), harness; Unicode classes and grapheme boundaries come from Rust.",
-        "technique": "generated-table obligations by vm_compute + Coq no-panic proof + executable Coq oracle on implementation output + model differential testing",
+        "technique": "Coq proof of the partition theorem for the tokenizer model over generated tables + no-panic proof + executable oracle on implementation output + model differential testing",
     },
     "C10": {
         "text": "Kernel-checked on every run: the two line-break tables regenerated from tokenizer.rs equal the sets of tokens that can end / "
